@@ -9,7 +9,7 @@
 (*   construct is SKIPPED (one line <<"VERIF-SKIP", id, why>> each; the runner counts them and        *)
 (*   demands that most programs are judged); all others are judged like in strict mode.              *)
 (* Mode "repro": pinned minimal programs of the deviations; judged by the same oracle, triggers      *)
-(*   allowed; the verdict of every line is printed.                                                 *)
+(*   allowed; the verdict of every line is printed (<<id, verdict, filter reason>>).                  *)
 (* The active deviation switches come from the environment (DEV_<name> = 1).                         *)
 EXTENDS AmlNsX, Json, IOUtils, TraceLib
 CONSTANT Mode
@@ -17,7 +17,7 @@ Trace == ndJsonDeserialize(IOEnv.TRACE)
 EnvDevs == {d \in DevAll : IOEnv["DEV_" \o d] = "1"}
 C11Ids == {"D1", "D1b", "D2", "D2c", "D3", "D5", "D6", "D7", "D8", "D9"}
 \* trigger ids of C11 findings that are still open, plus every trigger of this family (they only fire while their switch is on)
-Open == {d \in C11Ids : IOEnv["OPEN_" \o d] = "1"} \cup DevAll \cup {"InvisibleCallee", "MethodAsRef", "HiddenNameInDeferred"}
+Open == {d \in C11Ids : IOEnv["OPEN_" \o d] = "1"} \cup DevAll \cup {"InvisibleCallee", "MethodAsRef", "HiddenNameInDeferred", "BankFieldUnitInDeferred"}
 
 VARIABLES l, mismatch
 vars == <<l, mismatch>>
@@ -40,7 +40,7 @@ Next == /\ l <= Len(Trace) /\ mismatch = <<>>
              [] Mode = "filter" -> LET why == Filter(Trace[l]) IN
                                   IF why = <<>> THEN mismatch' = Check(Trace[l]) /\ Report(mismatch')
                                   ELSE mismatch' = <<>> /\ PrintT(<<"VERIF-SKIP", ToJson(<<Trace[l].id, why>>)>>)
-             [] OTHER -> mismatch' = <<>> /\ PrintT(<<"VERIF-REPRO", ToJson(<<Trace[l].id, Check(Trace[l])>>)>>)
+             [] OTHER -> mismatch' = <<>> /\ PrintT(<<"VERIF-REPRO", ToJson(<<Trace[l].id, Check(Trace[l]), Filter(Trace[l])>>)>>)
 NoMismatch == mismatch = <<>>
 Accepted == TLCGet("stats").diameter - 1 = Len(Trace)
 ====
